@@ -3,7 +3,8 @@ from checks_path import *  # noqa
 from conc_common import run_conc, replay_conc
 
 PROPERTY = 'C19'
-PROPS = ['SalsaVerif.Props.C19']
+GEN = ['LogicDG']
+PROPS = ['SalsaVerif.Props.C19', 'SalsaVerif.Props.GenLogicDG']
 EXPLANATION = ('Open-system theorems about the Lean transcription of salsa\'s DependencyGraph + per-key SyncState (one Lean function per Rust '
                'function), by induction over ARBITRARY finite sequences of protocol steps for any number of threads and keys: W1 (blocked iff '
                'in exactly one dependents list), W2 (wait-for graph acyclic), W5 (a result is delivered exactly once, never to a thread with '
